@@ -133,9 +133,14 @@ class TabIntpCompuMethod(CompuMethod):
                                        domain_samples: List[Union[int,
                                                                   float]]) -> Union[float, None]:
         for i in range(0, len(range_samples) - 1):
-            if (x0 := range_samples[i]) <= x and x <= (x1 := range_samples[i + 1]):
+            x0 = range_samples[i]
+            x1 = range_samples[i + 1]
+            if min(x0, x1) <= x and x <= max(x0, x1):
                 y0 = domain_samples[i]
                 y1 = domain_samples[i + 1]
+                if x0 == x1:
+                    # plateau: any value of the interval is a valid pre-image
+                    return y0
                 return y0 + (x - x0) * (y1 - y0) / (x1 - x0)
 
         return None
@@ -157,6 +162,8 @@ class TabIntpCompuMethod(CompuMethod):
                 f"Internal value {physical_value!r} must be inside the range"
                 f" [{min(self.physical_points)}, {max(self.physical_points)}]", EncodeError)
 
+        if self.internal_type in (DataType.A_INT32, DataType.A_UINT32):
+            result = round(result)
         res = self.internal_type.make_from(result)
 
         return res
@@ -181,6 +188,8 @@ class TabIntpCompuMethod(CompuMethod):
                 f" [{min(self.internal_points)}, {max(self.internal_points)}]", DecodeError)
             return None
 
+        if self.physical_type in (DataType.A_INT32, DataType.A_UINT32):
+            result = round(result)
         res = self.physical_type.make_from(result)
 
         return res
